@@ -490,12 +490,24 @@ func streamAroundRefusal(v interface{}, nm map[string]string) string {
 		n2 = buf.Len()
 		if e1 == nil && e2 != nil && n1 == n2 {
 			e3 = e.WriteObject(after)
+			// offered again, after other objects have been written, the value is refused again
+			if e3 == nil {
+				n3 := buf.Len()
+				if e4 := e.WriteObject(v); e4 == nil {
+					e3 = fmt.Errorf("the refused value, offered to the same stream again after another message, was accepted as %s", hexClip(buf.Bytes()[n3:], 24))
+				} else if buf.Len() != n3 {
+					buf.Truncate(n3) // (what a refusal leaves on the stream the second time is not claimed)
+				}
+			}
 		}
 	}); pv != nil {
 		return fmt.Sprintf("Encoder.WriteObject of the value as the second message of a stream panicked: %v [%s]", pv, st)
 	}
 	if e1 != nil || e2 == nil || n1 != n2 {
 		return ""
+	}
+	if msg := streamAroundRefusalWithClass(v, nm); msg != "" {
+		return msg
 	}
 	if e3 != nil {
 		return fmt.Sprintf("after a refusal that wrote nothing, the next WriteObject on the stream fails: %v", e3)
@@ -529,6 +541,49 @@ func streamAroundRefusal(v interface{}, nm map[string]string) string {
 	c, _ := l2[2].(*c13Node)
 	if gp == nil || a == nil || b == nil || c == nil || gp.N != 5 || a.N != 6 || a != b || a.Next != a || c != gp {
 		return bad(fmt.Sprintf("decodes to [%p ..] / [%p %p %p]: the references no longer denote what they stood for", gp, a, b, c))
+	}
+	return ""
+}
+
+// c13Late is a class first met inside a refused message.
+type c13Late struct{ N int32 }
+
+// streamAroundRefusalWithClass: the refused message is a list that begins with an instance of a class the stream
+// has not seen and ends with the refused value. An encoder that holds a message back until it is complete puts
+// nothing of it on the stream; it must then not remember the class definition as sent either: the next instance of
+// that class on the stream needs its definition. (When part of the message reached the stream nothing is claimed.)
+func streamAroundRefusalWithClass(v interface{}, nm map[string]string) string {
+	var buf bytes.Buffer
+	var e1, e2, e3 error
+	n1, n2 := 0, 0
+	if pv, _ := guard(func() {
+		e := hessian.NewEncoder(&buf, copyNames(nm))
+		e1 = e.WriteObject("first")
+		n1 = buf.Len()
+		e2 = e.WriteObject([]interface{}{&c13Late{N: 1}, v})
+		n2 = buf.Len()
+		if e1 == nil && e2 != nil && n1 == n2 {
+			e3 = e.WriteObject(&c13Late{N: 2})
+		}
+	}); pv != nil || e1 != nil || e2 == nil || n1 != n2 {
+		return ""
+	}
+	if e3 != nil {
+		return fmt.Sprintf("after a refused message that wrote nothing, the next WriteObject on the stream fails: %v", e3)
+	}
+	whole := append([]byte(nil), buf.Bytes()...)
+	var r2 interface{}
+	var d1, d2 error
+	if pv, st := guard(func() {
+		d := hessian.NewDecoder(bufio.NewReader(bytes.NewReader(whole)), map[string]reflect.Type{"c13Late": reflect.TypeOf(c13Late{})})
+		if _, d1 = d.ReadObject(); d1 == nil {
+			r2, d2 = d.ReadObject()
+		}
+	}); pv != nil {
+		return fmt.Sprintf("decoding the stream written around a refused message panicked: %v [%s]", pv, st)
+	}
+	if p, ok := r2.(*c13Late); d1 != nil || d2 != nil || !ok || p == nil || p.N != 2 {
+		return fmt.Sprintf("\"first\", a refused message [&c13Late{1}, <the value>] (error, nothing written) and &c13Late{2} through one Encoder: the stream %s decodes to %T (%v / %v): the class definition was taken for sent", hexClip(whole, 60), r2, d1, d2)
 	}
 	return ""
 }
